@@ -32,6 +32,11 @@ def run(ctx, rep):
             "assert!(next_type_id < 0x8000): in the demo writer the builder is only ever recycled from snapshots it built itself, "
             "whose registry ids are dense from 0x4000 and at most 1024 per snapshot, so next_type_id stays below 0x4000 + 1024 + 256 "
             "(the site is a known finding of C11, where received snapshots can carry arbitrary registry ids)",
+        'libtw2_snapshot::snap::Delta::create_raw::{closure#0} | panic-call | panic_2021! | 0':
+            "item sizes of one key never differ in the demo writer: the key contains the object type and every typed object "
+            "encodes to the fixed size of its type (C14 R2 obj_size agreement); known finding of C11/C13 for received snapshots",
+        'libtw2_snapshot::snap::Delta::write_impl | panic-call | assert! | 0':
+            "DemoWriter passes P::obj_size, which C14 R2 shows equal to the encoded length of every generated object type",
     })
     header_tables(ctx.prog, rep)
     strictness(ctx.prog, rep)
